@@ -138,7 +138,8 @@ def raw_groups(root):
     return out
 
 
-def run_impl(case):
+def run_impl(case, md_obj=None):
+    """one write; `md_obj` = an existing GeffMetadata object to pass instead of a fresh one (write histories)"""
     import warnings
 
     import zarr
@@ -153,7 +154,7 @@ def run_impl(case):
     ids = np.array(g["ids"], dtype=g.get("id_dtype", "uint64"))
     edges = np.array(g["edges"], dtype=ids.dtype).reshape(-1, 2)
     store = zarr.storage.MemoryStore()
-    md = build_md(case.get("md"))
+    md = build_md(case.get("md")) if md_obj is None else md_obj
     md_before = None if md is None else md.model_dump(mode="json")
     obs = {"model_props": None}
     fmt = case.get("fmt", 2)
@@ -820,6 +821,54 @@ def lists_well_formed_fn(case):
     return all(ls.get(k) is None or len(ls[k]) == n for k in LIST_KEYS)
 
 
+# ----------------------------------------------------------------- write histories sharing one metadata object
+def history_case(rng):
+    """2-3 writes through different entry points that re-use ONE GeffMetadata object, with and without per-call
+    axis_* overrides: every stored metadata must be what the ORIGINAL caller metadata value gives"""
+    axis_names = ["y", "x"]
+    n = rng.choice([1, 2, 3, 5])
+    md = {"directed": rng.random() < 0.5, "eprops": [],
+          "nprops": [{"identifier": "y", "dtype": "float64", "varlength": False, "unit": "um", "description": "row"}] if rng.random() < 0.5 else [],
+          "axes": [gen_axis(rng, nm) for nm in axis_names]}
+    if rng.random() < 0.5:
+        md["extra"] = {"k": [1, {"z": None}]}
+    steps = []
+    for i in range(rng.choice([2, 3])):
+        entry = rng.choice(["sg", "sg", "nx", "rx", "write_dicts", "write_arrays"])
+        st = {"entry": entry, "fmt": rng.choice([2, 3]), "directed": rng.random() < 0.5}
+        if entry == "sg":
+            ids = rng.sample(range(0, 200), n)
+            st["ndims"] = 2
+            st["graph"] = {"ids": ids, "edges": [[ids[0], ids[1]]] if n > 1 else [], "id_dtype": "uint64",
+                           "nprops": [{"name": "position", "kind": "fixed", "dtype": "float64", "trail": [2],
+                                       "values": [c for _ in range(n) for c in coord_vals(rng, "float64", 2)], "missing": None},
+                                      {"name": "r", "kind": "fixed", "dtype": "float32", "trail": [], "values": coord_vals(rng, "float32", n), "missing": None}],
+                           "eprops": [{"name": "w", "kind": "fixed", "dtype": "int16", "trail": [], "values": [3] if n > 1 else [], "missing": None}]}
+        else:
+            ids = rng.sample(range(0, 200), n)
+            st["graph"] = {"ids": ids, "edges": [[ids[0], ids[1]]] if n > 1 else [], "id_dtype": "uint64",
+                           "nprops": [{"name": a, "kind": "fixed", "dtype": "float64", "trail": [], "values": coord_vals(rng, "float64", n), "missing": None}
+                                      for a in axis_names], "eprops": []}
+        if entry in ("sg", "nx", "rx") and rng.random() < (0.7 if i == 0 else 0.3):
+            ls = gen_lists(rng, axis_names)
+            if entry == "sg" and rng.random() < 0.6:
+                ls["names"] = None
+            st["lists"] = ls
+        steps.append(st)
+    return {"entry": "history", "md": md, "steps": steps, "graph": {"ids": [0], "edges": [], "nprops": [], "eprops": []}}
+
+
+def run_history(case):
+    md = build_md(case["md"])
+    out = []
+    for st in case["steps"]:
+        step = {**st, "md": case["md"]}
+        shared = run_impl(step, md_obj=md)
+        fresh = run_impl(step)
+        out.append((shared, {k: fresh.get(k) for k in ("attrs", "exc")}))
+    return out
+
+
 def warm_sg():
     """compile (or load from the witty cache) the six spatial-graph signatures before forking"""
     g = {"ids": [], "edges": [], "nprops": [], "eprops": []}
@@ -927,6 +976,36 @@ def run(ck: common.Check):
 
             ck.corr_broken("C10:oracle-exception", c, {k: o.get(k) for k in ("exc", "msg", "attrs")},
                            f"{type(ex).__name__}: {ex}\n{traceback.format_exc()[-800:]}")
+    # write histories that re-use one metadata object
+    hcases = [history_case(ck.rng) for _ in range(120 if ck.quick else 2500)]
+    hobs = common.pmap(run_history, hcases, chunksize=4)
+    hreq, hidx = [], []
+    for hi, (hc, steps) in enumerate(zip(hcases, hobs)):
+        for si, (shared, _) in enumerate(steps):
+            step = {**hc["steps"][si], "md": hc["md"]}
+            try:
+                rq, d = model_request(step, shared, version)
+            except Exception as ex:  # noqa: BLE001
+                ck.corr_broken("C10:request-exception", step, {k: shared.get(k) for k in ("exc", "msg")}, f"{type(ex).__name__}: {ex}")
+                rq, d = {"op": "unmodelled-request"}, 1
+            hreq.append(rq)
+            hidx.append((hi, si, d))
+    hmodel = drv.ask(hreq)
+    if hmodel is None:
+        ck.broken.append({"what": "driver Drivers/C10.lean (history stream)", "detail": drv.broken})
+    for j, (hi, si, d) in enumerate(hidx):
+        hc = hcases[hi]
+        shared, fresh = hobs[hi][si]
+        step = {**hc["steps"][si], "md": hc["md"], "history": {"step": si, "previous_steps": hc["steps"][:si]}}
+        try:
+            judge(ck, step, shared, None if hmodel is None else hmodel[j], d, rdef)
+            if shared.get("attrs") != fresh.get("attrs") or shared.get("exc") != fresh.get("exc"):
+                ck.fail("C10:history-shared-metadata", f"write #{si} of a history that re-uses ONE metadata object stores other metadata "
+                        f"(or ends differently) than the same write with a fresh copy of the caller's original metadata",
+                        {"entry": "history", "md": hc["md"], "steps": hc["steps"][: si + 1], "graph": hc["graph"]},
+                        shared.get("attrs") or shared.get("exc"), fresh.get("attrs") or fresh.get("exc"))
+        except Exception as ex:  # noqa: BLE001
+            ck.corr_broken("C10:oracle-exception", step, {k: shared.get(k) for k in ("exc", "msg", "attrs")}, f"{type(ex).__name__}: {ex}")
     # function-level stream
     fcases = [fn_case(ck.rng) for _ in range(per)]
     fobs = [run_fn(c) for c in fcases]
@@ -964,6 +1043,24 @@ class _Rec:
 
 def replay(rp):
     case = rp.get("case", rp)   # a replay file, or a bare corpus case
+    if case["entry"] == "history":
+        warm_sg()
+        steps = run_history(case)
+        bad = 0
+        for si, (shared, fresh) in enumerate(steps):
+            same = shared.get("attrs") == fresh.get("attrs") and shared.get("exc") == fresh.get("exc")
+            r = _Rec()
+            if "attrs" in shared:
+                oracle(r, {**case["steps"][si], "md": case["md"]}, shared)
+            print(json.dumps({"write": si, "entry": case["steps"][si]["entry"], "lists": case["steps"][si].get("lists"),
+                              "same_as_with_fresh_metadata": same, "stored_axes": (shared.get("attrs") or {}).get("axes"),
+                              "with_fresh_metadata_axes": (fresh.get("attrs") or {}).get("axes"), "directed": (shared.get("attrs") or {}).get("directed"),
+                              "exc": shared.get("exc")}, default=str)[:1500])
+            for k, w in r.f:
+                print(f"  [{k}] {w}")
+            bad += (not same) + len(r.f)
+        print("REPLAY: property FAILS on this input" if bad else "REPLAY: property holds on this input")
+        return 1 if bad else 0
     if case["entry"] in ("minmax", "axes_from_lists"):
         obs = run_fn(case)
         r = _Rec()
